@@ -460,7 +460,7 @@ pub fn run(r: &mut Runner, level: &str, profile: &str, seed: u64, count: u64, ti
     for it in 0..count {
         let mut rng = master.fork();
         let limit: u32 = *rng.pick(&[1024u32, 1024, 2048, 4096]);
-        let frames = if (it as usize) < directed.len() && count as usize >= directed.len() + 8 { directed[it as usize].clone() } else { gen_stream(&mut rng, &p, limit) };
+        let frames = if (it as usize) < directed.len() && count as usize >= directed.len() + 4 { directed[it as usize].clone() } else { gen_stream(&mut rng, &p, limit) };
         let stream: Vec<u8> = frames.iter().flat_map(|f| f.bytes.clone()).collect();
         for f in &frames {
             *st.kinds.entry(format!("{:?}", f.kind)).or_insert(0) += 1;
@@ -583,6 +583,9 @@ pub fn run(r: &mut Runner, level: &str, profile: &str, seed: u64, count: u64, ti
     if level == "conn" && profile == "C18" {
         unread_close(r);
     }
+    if level == "conn" && matches!(profile, "C09" | "C13" | "C18") {
+        stalled_oversized(r);
+    }
     r.finish();
     st
 }
@@ -677,7 +680,9 @@ pub fn big_response(r: &mut Runner) {
     let clock = std::sync::Arc::new(crate::sut::Clock(std::sync::atomic::AtomicU64::new(0)));
     let store: std::sync::Arc<dyn memcrs::cache::cache::Cache + Send + Sync> = std::sync::Arc::new(memcrs::memory_store::store::MemoryStore::new(clock));
     let limit: u32 = 40 << 20;
-    let srv = crate::net::start_server(store, limit, 8, 30);
+    // idle timeout 1 s, and the reader below stalls for longer than that: a write that cannot proceed is not an idle
+    // connection, and whatever the server does about it must not corrupt the stream
+    let srv = crate::net::start_server(store, limit, 8, 1);
     let value: Vec<u8> = (0..(24usize << 20)).map(|i| (i % 251) as u8).collect();
     let mut c = std::net::TcpStream::connect(("127.0.0.1", srv.port)).unwrap();
     c.set_nodelay(true).ok();
@@ -699,7 +704,7 @@ pub fn big_response(r: &mut Runner) {
     let mut got: Vec<u8> = Vec::with_capacity(value.len() + 1024);
     let mut buf = vec![0u8; 1 << 16];
     c.set_read_timeout(Some(std::time::Duration::from_secs(5))).ok();
-    std::thread::sleep(std::time::Duration::from_millis(300));
+    std::thread::sleep(std::time::Duration::from_millis(1600));
     loop {
         match c.read(&mut buf) {
             Ok(0) => break,
@@ -775,6 +780,55 @@ pub fn unread_close(r: &mut Runner) {
     if !answered {
         let prog = r.prog_start.len().saturating_sub(1);
         r.violations.push((prog, vec!["C18"], start, format!("while connections whose clients had half-closed without reading their answers were being closed, a fresh connection's noop got no answer within {} ms: a fault on one connection delays the others", waited.as_millis())));
+    }
+}
+
+/// C09 / C13 / C18: the sender of an oversized request stalls inside its body for longer than the idle timeout and then
+/// goes on. Whatever the server does with that connection (it closes it), the rest of the body — which here is the image
+/// of valid requests — is never parsed as requests.
+pub fn stalled_oversized(r: &mut Runner) {
+    use std::io::{Read, Write};
+    let clock = std::sync::Arc::new(crate::sut::Clock(std::sync::atomic::AtomicU64::new(0)));
+    let mem = std::sync::Arc::new(memcrs::memory_store::store::MemoryStore::new(clock));
+    let store: std::sync::Arc<dyn memcrs::cache::cache::Cache + Send + Sync> = mem.clone();
+    let srv = crate::net::start_server(store, 1024, 8, 1);
+    r.exec("note stalled-oversized: header of a 3000-byte set + 100 body bytes, 1.5 s of silence (idle timeout 1 s), then the rest of the body, which is the image of `set injected` + `noop`");
+    let start = r.ops.len() - 1;
+    let mut f = wire::set_like(op::SET, b"big", b"", 0, 0, 0, 0x51);
+    f.body_len = Some(3000);
+    let head = f.bytes();
+    let inner = {
+        let mut v = wire::set_like(op::SET, b"injected", b"pwn", 0, 0, 0, 0x66).bytes();
+        v.extend(wire::bare(op::NOOP, 0x67).bytes());
+        v
+    };
+    let mut got: Vec<u8> = vec![];
+    if let Ok(mut c) = std::net::TcpStream::connect(("127.0.0.1", srv.port)) {
+        c.set_nodelay(true).ok();
+        let _ = c.write_all(&head);
+        let _ = c.write_all(&vec![b'x'; 100 - 11]); // the header's key and extras are part of the 3000
+        std::thread::sleep(std::time::Duration::from_millis(1500));
+        let mut rest = inner.clone();
+        rest.resize(3000 - 100, b'y');
+        let _ = c.write_all(&rest);
+        let _ = c.write_all(&wire::bare(op::NOOP, 0x68).bytes());
+        c.set_read_timeout(Some(std::time::Duration::from_millis(700))).ok();
+        let mut buf = [0u8; 4096];
+        loop {
+            match c.read(&mut buf) {
+                Ok(0) | Err(_) => break,
+                Ok(n) => got.extend_from_slice(&buf[..n]),
+            }
+        }
+    }
+    let recs = crate::sut::Sut::records_of(&mem);
+    let injected = recs.iter().any(|(k, _)| k.as_slice() == b"injected");
+    let answered_inner = wire::split_resps(&got).ok().map_or(false, |fr| fr.iter().any(|b| wire::parse_resp(b).map_or(false, |x| x.opaque == 0x66 || x.opaque == 0x67)));
+    if injected || answered_inner {
+        let prog = r.prog_start.len().saturating_sub(1);
+        r.violations.push((prog, vec!["C09", "C13", "C18"], start, format!(
+            "bytes of an oversized request's body were executed as requests after its sender had stalled past the idle timeout: {} (responses received: {})",
+            if injected { "the key 'injected' is stored" } else { "a request inside the body was answered" }, hex(&got[..got.len().min(96)]))));
     }
 }
 
@@ -881,7 +935,20 @@ pub fn run_grid(r: &mut Runner, seed: u64, count: u64) -> StreamStats {
             dead = o.ends_with(" E") || o.contains(" P:");
             off += n;
         }
-        r.exec("dump");
+        let d = r.exec("dump");
+        // C10: a header the property lists as invalid is never executed — and since such a header ends the connection,
+        // nothing behind it is either: the (fresh) store must still be empty
+        // (an oversized body is refused before the opcode is looked at; at this level — the bare decoder — the skipping of
+        // its body, which belongs to the connection, is not emulated, so those cases are left to the conn suite)
+        let unassigned = opc >= 0x25 || ((opc == 0x1b || opc == 0x1f) && body <= limit);
+        let key_required = matches!(opc, 0x00 | 0x09 | 0x0c | 0x0d | 0x01 | 0x02 | 0x03 | 0x11 | 0x12 | 0x13 | 0x04 | 0x14 | 0x05 | 0x06 | 0x15 | 0x16 | 0x0e | 0x0f | 0x19 | 0x1a);
+        let invalid = magic != 0x80 || dtype != 0 || unassigned || (body <= limit && (kl > 250 || el > 20 || (key_required && kl == 0) || body < ke));
+        if invalid && d.trim() != "dump" {
+            let prog = r.prog_start.len() - 1;
+            r.violations.push((prog, vec!["C10"], r.ops.len() - 1, format!(
+                "a request with an invalid header (magic {:#x}, opcode {:#x}, data type {}, key length {}, extras length {}, body length {}, limit {}) was executed, or something behind it was: the store holds [{}]",
+                magic, opc, dtype, kl, el, body, limit, trunc(&d))));
+        }
         if st.samples.len() < 3 {
             st.samples.push(format!("limit {} header {} followed by {} filler bytes", limit, hex(&h), avail));
         }
